@@ -244,7 +244,7 @@ def gen_grid_streams(rng, n, d, maxlen):
     out = []
     for o in offs:
         r = rng.random()
-        ln = rng.randint(0, 4) if r < 0.12 else rng.randint(3, maxlen)
+        ln = rng.randint(0, 4) if r < 0.05 else rng.randint(3, maxlen)
         out.append([base + d * (o + j) for j in range(ln)])
     return out
 
